@@ -150,6 +150,10 @@ class Evaluator:
             return BV.top(w, sg)
         if k == "block" and not n.get("stmts") and "expr" in n:
             return self.ev(n["expr"])
+        if k == "try":
+            return self.ev(n["e"])
+        if k == "mcall" and (n.get("trait") or "").endswith("ReadBytesExt"):
+            return BV.input("wire", w, sg)
         if k == "path":
             if n.get("res") == "local":
                 if n["name"] in self.env:
